@@ -105,6 +105,7 @@ class Runner:
             client_class = Fake
         c = HC([("h", i) for i in range(n)], hasher=PrefHasher, retry_attempts=ra, retry_timeout=rt, dead_timeout=dt, ignore_exc=ign)
         out, logs = [], []
+        self.snaps = []
         for (now, oserr, other, op, keys) in evs:
             CLOCK[0] = now
             ENV.clear()
@@ -141,6 +142,7 @@ class Runner:
                 res = "internal:" + type(e).__name__
             out.append("res=%s contacts=[%s] %s" % (res, ",".join("%d@%d:%s" % x for x in LOG), state(c)))
             logs.append(list(LOG))
+            self.snaps.append({"nodes": [int(x.split(":")[1]) for x in c.hasher.nodes], "dead": {sv[1]: t for sv, t in c._dead_clients.items()}})
         return out, logs, c
 
 
@@ -150,7 +152,7 @@ def ev_text(e):
     return "ev=%d/%s/%s/%s/%s" % (now, ",".join(map(str, oserr)), ",".join(map(str, other)), lop, ";".join(",".join(map(str, k)) for k in keys))
 
 
-def monitor(ctx, cfg, n, evs, lines, logs, case_tags):
+def monitor(ctx, cfg, n, evs, lines, logs, case_tags, snaps=None):
     ra, rt, dt, ign = cfg
     case = {"cfg": {"retry_attempts": ra, "retry_timeout": rt, "dead_timeout": dt, "ignore_exc": ign}, "servers": n,
             "events": [ev_text(e) for e in evs], "trace": lines[-3:]}
@@ -162,6 +164,27 @@ def monitor(ctx, cfg, n, evs, lines, logs, case_tags):
         if ign and ("res=raise" in ln or "res=alldown" in ln):
             ctx.violation("an exception escaped although ignore_exc is set", case, tags=tags)
             return
+    if snaps:
+        # never bypassed: a key whose preferred server never had a failed contact (and is not failing now) is served by exactly that server;
+        # recovery: a dead record older than two dead_timeouts does not survive the next routed call (unless the server fails again in that call)
+        ever_failed = set()
+        prev_dead = {}
+        for j, ((now, oserr, other, op, keys), lg, sn) in enumerate(zip(evs, logs, snaps)):
+            if op in ("c", "set", "delete") and keys:
+                p = keys[0][0]
+                if p not in ever_failed and p not in oserr and [x for x, _, _ in lg] != [p]:
+                    ctx.violation(f"server {p} never failed, yet a key it owns was not served by (exactly one contact to) it",
+                                  dict(case, event=j, contacts=[list(x) for x in lg]), tags=tags + ["bypassed"])
+                    return
+            routed = op in ("c", "set", "delete") or bool(keys)
+            if routed:
+                for sv, td in prev_dead.items():
+                    if now > td + 2 * dt and sv not in oserr and sv not in sn["nodes"]:
+                        ctx.violation(f"server {sv} was taken out at t={td}; a routed call at t={now} > t+2*dead_timeout did not bring it back into rotation",
+                                      dict(case, event=j, rotation=sn["nodes"], dead=sn["dead"]), tags=tags + ["recovery"])
+                        return
+            ever_failed |= {x for x, _, o in lg if o == "oserror"}
+            prev_dead = sn["dead"]
     if rt >= dt:
         return
     # contacts per server over the whole history
@@ -258,7 +281,7 @@ def main(argv):
                             total_states += 1
                             rs = (rel_state(c, env, now), out[-1].split(" contacts")[0])
                             tags = ["setmany-ignoreexc"] if ign and any(e[3] == "s" for e in evs) else []
-                            monitor(ctx, cfg, n, evs, out, logs, tags)
+                            monitor(ctx, cfg, n, evs, out, logs, tags, R.snaps)
                             ctx.case((cfg, n, tuple(map(ev_text, evs))), nontrivial=any("oserror" in l for l in out),
                                      sample={"cfg": cfg, "events": [ev_text(e) for e in evs], "last": out[-1]} if total_states in (500, 9000) else None)
                             lines.append(f"failover cfg={ra},{rt},{dt},{int(ign)} n={n} t0=0 " + " ".join(ev_text(e) for e in evs))
@@ -290,7 +313,7 @@ def main(argv):
         cfg = (ra, rt, dt, ign)
         out, logs, c = R.run(cfg, n, evs)
         tags = ["setmany-ignoreexc"] if ign and any(e[3] == "s" for e in evs) else []
-        monitor(ctx, cfg, n, evs, out, logs, tags)
+        monitor(ctx, cfg, n, evs, out, logs, tags, R.snaps)
         ctx.case((cfg, n, tuple(map(ev_text, evs))), nontrivial=True)
         ctx.count("random-histories")
         lines.append(f"failover cfg={ra},{rt},{dt},{int(ign)} n={n} t0=0 " + " ".join(ev_text(e) for e in evs))
